@@ -1099,17 +1099,19 @@ pub fn lw(
     Ok(())
 }
 
-/// Operands shared by lwl, lwr, swl and swr: the register, the aligned word
+/// Operands shared by lwl, lwr, swl and swr: the register, its value (zero
+/// for $zero, whatever was assigned to that scalar), the aligned word
 /// address, and eight times the number of bytes between the effective address
 /// and the most-significant end of its aligned word (the byte offset on
 /// big-endian, three minus the byte offset on little-endian).
 fn unaligned_word_operands(
     instruction: &capstone::Instr,
     endian: &Endian,
-) -> Result<(Scalar, Expr, Expr), Error> {
+) -> Result<(Scalar, Expr, Expr, Expr), Error> {
     let detail = details(instruction)?;
 
     let rt = get_register(detail.operands[0].reg())?.scalar();
+    let rt_value = get_register(detail.operands[0].reg())?.expression();
     let base = get_register(detail.operands[1].mem().base)?.expression();
     let offset = expr_const(detail.operands[1].mem().disp as u64, 32);
 
@@ -1122,7 +1124,7 @@ fn unaligned_word_operands(
     };
     let bit_offset = Expr::shl(byte_offset, expr_const(3, 32))?;
 
-    Ok((rt, aligned_address, bit_offset))
+    Ok((rt, rt_value, aligned_address, bit_offset))
 }
 
 pub fn lwl(
@@ -1130,7 +1132,8 @@ pub fn lwl(
     instruction: &capstone::Instr,
     endian: &Endian,
 ) -> Result<(), Error> {
-    let (rt, aligned_address, bit_offset) = unaligned_word_operands(instruction, endian)?;
+    let (rt, rt_value, aligned_address, bit_offset) =
+        unaligned_word_operands(instruction, endian)?;
 
     let block_index = {
         let block = control_flow_graph.new_block()?;
@@ -1146,7 +1149,7 @@ pub fn lwl(
             Expr::shl(expr_const(1, 32), bit_offset)?,
             expr_const(1, 32),
         )?;
-        let kept = Expr::and(rt.clone().into(), keep_mask)?;
+        let kept = Expr::and(rt_value, keep_mask)?;
 
         block.assign(rt, Expr::or(loaded, kept)?);
 
@@ -1164,7 +1167,8 @@ pub fn lwr(
     instruction: &capstone::Instr,
     endian: &Endian,
 ) -> Result<(), Error> {
-    let (rt, aligned_address, bit_offset) = unaligned_word_operands(instruction, endian)?;
+    let (rt, rt_value, aligned_address, bit_offset) =
+        unaligned_word_operands(instruction, endian)?;
 
     let block_index = {
         let block = control_flow_graph.new_block()?;
@@ -1183,7 +1187,7 @@ pub fn lwr(
             expr_const(0xffff_ffff, 32),
             Expr::add(bit_offset, expr_const(8, 32))?,
         )?;
-        let kept = Expr::and(rt.clone().into(), keep_mask)?;
+        let kept = Expr::and(rt_value, keep_mask)?;
 
         block.assign(rt, Expr::or(loaded, kept)?);
 
@@ -2461,7 +2465,8 @@ pub fn swl(
     instruction: &capstone::Instr,
     endian: &Endian,
 ) -> Result<(), Error> {
-    let (rt, aligned_address, bit_offset) = unaligned_word_operands(instruction, endian)?;
+    let (_, rt_value, aligned_address, bit_offset) =
+        unaligned_word_operands(instruction, endian)?;
 
     let block_index = {
         let block = control_flow_graph.new_block()?;
@@ -2477,7 +2482,7 @@ pub fn swl(
             tmp.into(),
             Expr::xor(stored_mask, expr_const(0xffff_ffff, 32))?,
         )?;
-        let stored = Expr::shr(rt.into(), bit_offset)?;
+        let stored = Expr::shr(rt_value, bit_offset)?;
 
         block.store(aligned_address, Expr::or(kept, stored)?);
 
@@ -2495,7 +2500,8 @@ pub fn swr(
     instruction: &capstone::Instr,
     endian: &Endian,
 ) -> Result<(), Error> {
-    let (rt, aligned_address, bit_offset) = unaligned_word_operands(instruction, endian)?;
+    let (_, rt_value, aligned_address, bit_offset) =
+        unaligned_word_operands(instruction, endian)?;
 
     let block_index = {
         let block = control_flow_graph.new_block()?;
@@ -2512,7 +2518,7 @@ pub fn swr(
             expr_const(1, 32),
         )?;
         let kept = Expr::and(tmp.into(), kept_mask)?;
-        let stored = Expr::shl(rt.into(), shift)?;
+        let stored = Expr::shl(rt_value, shift)?;
 
         block.store(aligned_address, Expr::or(kept, stored)?);
 
